@@ -86,7 +86,7 @@ def random_args(cname, params, rng, zero_noise=False, asym=True):
     out = []
     for p in params:
         if p in ("theta",):
-            v = rng.choice([rng.uniform(-7, 7), math.pi, -math.pi / 2, rng.uniform(-1e-3, 1e-3), math.pi / 4])
+            v = rng.choice([rng.uniform(-7, 7), math.pi, -math.pi / 2, rng.uniform(-1e-3, 1e-3), math.pi / 4, 0.0])   # 0.0: the zero set of the theta denominators
         elif p.startswith("phi"):
             v = rng.uniform(-7, 7)
         elif p in ("p", "p_single_ctr", "p_single_trg", "rout"):
